@@ -215,5 +215,7 @@ func C05(c *core.Ctx) {
 	c05Families(c)
 	runCompositions(c, ruleSet("A-REJ", "A-NOEXTRA", "A-NILG"), "minimum", "maximum", "bound")
 	ruleMultiSel(c, ruleSet("A-REJ", "A-NOEXTRA"), 3, "differing only in minimum", "differing only in maximum", "differing only in multipleOf")
+	// the same bounds under --min-sized-ints: a check is absent only where the Go type's range implies it
+	ruleSizedFamilies(c, []string{"required"}, 300)
 	c.Floor("families", c.Counts["members"], 300, "family members")
 }
